@@ -302,7 +302,7 @@ var (
 	bodyAlpha = [][]byte{nil, []byte("a"), []byte("a\nb"), []byte("[x]"), []byte("1 /z"), {0x00, 0xff}, []byte("\r\n")}
 	// JSON strings cannot carry invalid UTF-8; the binary body is replaced by control and non-ASCII characters
 	bodyAlphaJSON = [][]byte{nil, []byte("a"), []byte("a\nb"), []byte("[x]"), []byte("{\"q\":1}"), []byte("\x00\x7fé"), []byte("\r\n")}
-	dirAlpha      = []KV{{"A", "1"}, {"Host", "h.example"}, {"A", "2"}, {"X-b", "v w"}, {"X-Ids", "[1,2]]"}}
+	dirAlpha      = []KV{{"A", "1"}, {"Host", "h.example"}, {"A", "2"}, {"X-b", "v w"}, {"X-Ids", "[1,2]]"}, {"Referer", "http://x.example/a:b?c=[d]"}, {"x-lower-case", "v"}}
 )
 
 func itemAlphabet(format string, reduced bool) []Item {
@@ -345,7 +345,7 @@ func itemAlphabet(format string, reduced bool) []Item {
 		if format == "jsonline" {
 			bodies = bodyAlphaJSON
 		}
-		hs := [][]KV{nil, {{"A", "1"}}, {{"A", "1"}, {"X-b", "v w"}}, {{"A", ""}}} // the last: a header present with an empty value
+		hs := [][]KV{nil, {{"A", "1"}}, {{"A", "1"}, {"X-b", "v w"}}, {{"A", ""}}, {{"Referer", "http://x.example/a:b"}, {"x-lower-case", "v"}}} // an empty value; a value with colons; a non-canonical name
 		hosts := []string{"", "h.example"}
 		if reduced {
 			out = []Item{
